@@ -975,7 +975,7 @@ def _mentions_stream(x, tgt, wep):
     return False
 
 
-def _min_cannot_be_zero(body, bb, fact, lbs):
+def _min_cannot_be_zero(body, bb, fact, lbs, facts=None):
     """fact says min(a, b, ..) == 0 while every operand is established >= 1 at bb: the branch is dead"""
     rel = fact[0]
     x = None
@@ -988,6 +988,8 @@ def _min_cannot_be_zero(body, bb, fact, lbs):
     if x is None:
         return False
     p = peel(x, through_try=False)
+    if p.k == "call" and not (p.q in MIN_CALLS or p.rq in MIN_CALLS) and facts is not None:
+        p = peel(expand_local_call(facts, p), through_try=False)       # `clamp_pending(self.owed, o.len())` = `owed.min(len)`
     if not (p.k == "call" and (p.q in MIN_CALLS or p.rq in MIN_CALLS)):
         return False
     return all(_positive(body, bb, a, lbs) for a in p.args)
@@ -1023,7 +1025,7 @@ def rule_r9(facts, col, rule_id="C09.R9"):
                     col.ok(rule_id, key, body.where(bb), "a branch condition on the effect-free path examines self.%s" % tgt)
                     continue
                 lbs = window_lower_bounds(body, bb, facts)
-                if any(_min_cannot_be_zero(body, bb, f, lbs) for f in fs):
+                if any(_min_cannot_be_zero(body, bb, f, lbs, facts) for f in fs):
                     col.ok(rule_id, key, body.where(bb), "dead branch: min(..) == 0 with every operand established >= 1")
                     continue
                 col.bad(rule_id, key, body.where(bb),
